@@ -24,6 +24,7 @@ pub struct E1Job {
     pub with_welcomes: bool,
     pub welcome_consent: u8,
     pub prejoin: bool,
+    pub rejoin: bool,
     /// mutate the world after it was built (extra adversarial invitations, ...)
     pub world_hook: Option<fn(&mut World)>,
     pub max_states: usize,
@@ -31,7 +32,7 @@ pub struct E1Job {
 
 impl E1Job {
     pub fn new(sc: Scenario) -> E1Job {
-        E1Job { sc, backend: Bk::Memory, regimes: vec![Regime::Causal, Regime::Unrestricted], members: None, expect_converge: true, with_local_ops: true, with_restart: false, with_welcomes: false, welcome_consent: 0, prejoin: false, world_hook: None, max_states: 20000 }
+        E1Job { sc, backend: Bk::Memory, regimes: vec![Regime::Causal, Regime::Unrestricted], members: None, expect_converge: true, with_local_ops: true, with_restart: false, with_welcomes: false, welcome_consent: 0, prejoin: false, rejoin: false, world_hook: None, max_states: 20000 }
     }
     pub fn backend(mut self, b: Bk) -> Self {
         self.backend = b;
@@ -124,8 +125,15 @@ fn run_job(job: &E1Job, check: &GraphCheck, rep: &mut Report) {
             continue;
         }
         for regime in &job.regimes {
-            let opts = ExploreOpts { regime: *regime, max_states: job.max_states, with_restart: job.with_restart, with_local_ops: job.with_local_ops, keep_key_json: false, pool_filter: None, with_welcomes: job.with_welcomes, welcome_consent: job.welcome_consent, prejoin: job.prejoin };
+            let opts = ExploreOpts { regime: *regime, max_states: job.max_states, with_restart: job.with_restart, with_local_ops: job.with_local_ops, keep_key_json: false, pool_filter: None, with_welcomes: job.with_welcomes, welcome_consent: job.welcome_consent, prejoin: job.prejoin, rejoin: job.rejoin };
             let g = explore(&w, m, &opts);
+            if std::env::var("VERIF_DUMP_EDGES").is_ok() {
+                for (si, es) in g.edges.iter().enumerate() {
+                    for e in es {
+                        eprintln!("edge {} {m} s{si} --{}--> s{} : {}", job.sc.name, e.action.label(&w), e.target, e.result);
+                    }
+                }
+            }
             rep.states += g.states.len() as u64;
             rep.transitions += g.transitions as u64;
             rep.add_count("graphs", 1);
